@@ -599,8 +599,9 @@ func (m *Manager) rotateWAL() error {
 
 	verifhook.Point("rotate.new_wal")
 
-	// Store the old WAL for proper closure
-	oldWAL := m.wal
+	// Store the old WAL for proper closure (loaded atomically: a rotation started by
+	// FlushMemTables holds flushMu only, one started by RotateWAL holds mu only)
+	oldWAL := m.getWAL()
 
 	// Atomically update the WAL reference using atomic pointer operations
 	atomic.StorePointer((*unsafe.Pointer)(unsafe.Pointer(&m.wal)), unsafe.Pointer(newWAL))
